@@ -218,6 +218,7 @@ func (x *Exec) callFunc(st *State, fn *ssa.Function, args []Val, bind []Val, pos
 		}
 	}
 	st.Note("inline " + fn.Name())
+	x.callPos = pos
 	return x.execFunction(st, fn, args, bind, false)
 }
 
